@@ -712,13 +712,18 @@ fn run_seq<B: Backend>(args: &Args, m: &mut Monitor, label: &str) {
     let miri = is_miri(args);
     let readers = if miri { 2 } else { args.get_u64("readers", 6) as usize };
     let seals = if miri { args.n(3000, 8000) } else { args.n(600_000, 10_000_000) };
-    let cap = 16usize;
+    let cap = 20usize;
     let seed = args.seed;
     let mut env = B::create(&format!("seq{seed}"), cap, seed);
     let w = env.writer();
     let krng = DetRng::new(mix2(seed, 0x40));
+    // Four ballast channels sit in front of the readers' channels: removing one of them while no
+    // churn channel exists moves a reader's (then last) channel into the freed slot, so live seal
+    // contexts also see their channel change its index.
+    let ballast0: Vec<LocalChannelId> = (0..4).map(|_| add_open::<B>(&w, &Pair::<B::CS>::new(&krng)).expect("add ballast")).collect();
     let pairs: Vec<Pair<B::CS>> = (0..readers).map(|_| Pair::new(&krng)).collect();
     let chans: Vec<(LocalChannelId, LocalChannelId)> = pairs.iter().map(|p| (add_seal::<B>(&w, p).expect("add seal"), add_open::<B>(&w, p).expect("add open"))).collect();
+    let moved = AtomicU64::new(0);
     let wops = AtomicU64::new(0);
     let done = AtomicUsize::new(0);
     let views: Vec<B::Afc> = (0..readers).map(|_| env.reader()).collect();
@@ -727,7 +732,8 @@ fn run_seq<B: Backend>(args: &Args, m: &mut Monitor, label: &str) {
     struct ROut { ok: u64, failed: [u64; 4], after_invalidation: u64, second_ctx_refused: u64, second_ctx_granted: u64, opened: u64, viol: Vec<(String, Value)> }
 
     let (wcount, routs) = std::thread::scope(|s| {
-        let (wops, done, chans) = (&wops, &done, &chans);
+        let (wops, done, chans, moved) = (&wops, &done, &chans, &moved);
+        let mut ballast = ballast0.clone();
         // Writer: churn OTHER channels so every reader's cached key is invalidated again and again.
         let wh = s.spawn(move || guarded(|| (), || {
             let mut rng = Rng::new(seed).fork(0x40_0001);
@@ -736,8 +742,16 @@ fn run_seq<B: Backend>(args: &Args, m: &mut Monitor, label: &str) {
             let mut n = 0u64;
             let mut errs = vec![];
             while done.load(Ordering::SeqCst) < readers {
-                let room = cap - 2 * readers;
-                if mine.len() < room && (mine.is_empty() || rng.chance(3, 5)) {
+                let room = cap - 2 * readers - 4;
+                // spaced out, so that the readers have sealed in between (a context that has not
+                // sealed yet cannot show a restarted sequence)
+                let due = n > 1500 * (5 - ballast.len() as u64);
+                if mine.is_empty() && !ballast.is_empty() && due && rng.chance(1, 3) {
+                    // the last list entry is a reader's channel now: it moves into the ballast slot
+                    let id = ballast.swap_remove(rng.usize(ballast.len()));
+                    if let Err(e) = w.remove(id) { errs.push(format!("remove ballast: {e}")); }
+                    moved.fetch_add(1, Ordering::Relaxed);
+                } else if mine.len() < room && (mine.is_empty() || rng.chance(3, 5)) {
                     let p = Pair::<B::CS>::new(&krng);
                     match if rng.bool() { add_seal::<B>(&w, &p) } else { add_open::<B>(&w, &p) } {
                         Ok(id) => mine.push(id),
@@ -871,6 +885,7 @@ fn run_seq<B: Backend>(args: &Args, m: &mut Monitor, label: &str) {
         m.inconclusive(&format!("writer churn operation failed: {e}"));
     }
     m.count(&format!("writer_table_changes_{label}"), wn);
+    m.count("removals_that_move_a_sealing_channel_to_another_slot", moved.load(Ordering::Relaxed));
     for (r, o) in routs.into_iter().enumerate() {
         m.evals(o.ok + o.failed.iter().sum::<u64>());
         m.count("successful_seals", o.ok);
